@@ -937,6 +937,12 @@ func (ctx Ctx) basicLiteral(e *ast.BasicLit) coq.Expr {
 	if e.Kind == token.INT {
 		info, _ := getIntegerType(ctx.typeOf(e))
 		v := ctx.info.Types[e].Value
+		if v.Kind() != constant.Int {
+			// an integer literal used at a non-integer type (var f float64 = 1)
+			// has a constant of that type's kind
+			ctx.unsupported(e, "integer literal of non-integer type %v", ctx.typeOf(e))
+			return nil
+		}
 		n, ok := constant.Uint64Val(v)
 		if !ok {
 			ctx.unsupported(e,
